@@ -120,7 +120,7 @@ def check_sched(case, ctx: Ctx):
         _ = len(clr.pixels())
         edges_ = [[10 * k for k in range(s_ + 1)] for s_ in case["sizes"]]
         bt_ = {"names": [f"chr{t + 1}" for t in range(len(edges_))], "edges": edges_, "kinds": ["fixed"] * len(edges_)}
-        call("re-create with the full matrix", create_from_model, path, bt_, case["rows"], True, h5opts={"compression": None}, mode="a")
+        call("re-create with the full matrix", create_from_model, path, bt_, case["rows"], True, dtypes=c10.count_dtypes(case), h5opts={"compression": None}, mode="a")
     elif case.get("prior_layout"):
         from ..coolio import create_from_model
 
@@ -130,7 +130,7 @@ def check_sched(case, ctx: Ctx):
                  dict(o, x0=None, blacklist=None, max_iters=2), chunksize=case["chunksize"])
         edges_ = [[10 * k for k in range(s_ + 1)] for s_ in case["sizes"]]
         bt_ = {"names": [f"chr{t + 1}" for t in range(len(edges_))], "edges": edges_, "kinds": ["fixed"] * len(edges_)}
-        call("replace the collection at the same path", create_from_model, path, bt_, case["rows"], True, h5opts={"compression": None})
+        call("replace the collection at the same path", create_from_model, path, bt_, case["rows"], True, dtypes=c10.count_dtypes(case), h5opts={"compression": None})
         clr = cooler.Cooler(path)
     else:
         path = c10.make_cooler(ctx, case)
@@ -165,6 +165,14 @@ def check_sched(case, ctx: Ctx):
 
         if not tie:
             same(base_w, ref["weights"], "balance_cooler vs the dense iterative-correction reference")
+            # ... and so do the reported statistics (per chromosome in cis-only mode)
+            for key, rt in (("var", 1e-6), ("scale", 1e-8)):
+                a = np.atleast_1d(np.asarray(base_stats[key], dtype=float))
+                b = np.atleast_1d(np.asarray(ref[key], dtype=float))
+                check(a.shape == b.shape and np.allclose(a, b, rtol=rt, atol=1e-9 * tol, equal_nan=True),
+                      lambda: f"stats[{key!r}] = {a} but the dense iterative-correction reference gives {b}")
+            check(np.array_equal(np.atleast_1d(base_stats["converged"]), np.atleast_1d(ref["converged"])),
+                  lambda: f"stats['converged'] = {base_stats['converged']}, the reference run gives {ref['converged']} (var {ref['var']}, tol {tol})")
             true_ref = balmodel.ic_dense(A, offsets, o, 1, False) if (dw, cw) != (1, False) else ref
             if true_ref is not ref:
                 w_t = true_ref["weights"]
@@ -216,8 +224,17 @@ def check_sched(case, ctx: Ctx):
         sp = split(cooler.Cooler(path), map=RecordingMap("lazy", 0), chunksize=case["chunksize"])
         ident = (lambda chunk: len(chunk["pixels"]["bin1_id"]))
         p1, p2 = sp.pipe(ident), sp.pipe(ident)
-        totals = [sum(p1.gather()), sum(p2.gather()), p1.reduce(lambda a, b: a + b, 0)]
+        totals = call("two pipes derived from one split(), evaluated in turn",
+                      lambda: [sum(p1.gather()), sum(p2.gather()), p1.reduce(lambda a, b: a + b, 0)])
         check(totals == [nnz, nnz, nnz], lambda: f"repeated evaluation of split(chunksize={case['chunksize']}) visited {totals} pixel records, stored {nnz}")
+        # one stem, two different continuations ("pipe() returns a new datapipe"): record count and sum of counts
+        stem = split(cooler.Cooler(path), map=RecordingMap("lazy", 0), chunksize=case["chunksize"]).pipe(lambda chunk: chunk["pixels"]["count"])
+        q1, q2 = stem.pipe(np.size), stem.pipe(np.sum)
+        res = call("two continuations of one stem pipeline",
+                   lambda: [int(sum(q1.gather())), int(sum(q2.gather())), int(sum(len(x) for x in stem.gather())), int(sum(q1.gather()))])
+        tot = int(sum(r[2] for r in case["rows"]))
+        check(res == [nnz, tot, nnz, nnz],
+              lambda: f"continuations of one stem over split(chunksize={case['chunksize']}): record count, sum of counts, stem records, record count again = {res}, stored {[nnz, tot, nnz, nnz]}")
     finally:
         if pool is not None:
             pool.terminate()
@@ -262,7 +279,7 @@ def check_cli(case, ctx: Ctx):
     path = ctx.tmp(".cool")
     uri = path if case["group"] == "/" else path + "::" + case["group"]
     try:
-        call("create", create_from_model, uri, bt, case["rows"], True, h5opts={"compression": None})
+        call("create", create_from_model, uri, bt, case["rows"], True, dtypes=c10.count_dtypes(case), h5opts={"compression": None})
         clr = cooler.Cooler(uri)
         base_w, base_stats = call("balance_cooler(chunksize=None)", c10.run_balance, clr, o, chunksize=None)
         base_w = np.asarray(base_w, dtype=float)
